@@ -2023,7 +2023,10 @@ TRUSTED = [
     "Recfile.write AFTER fixes/C01/0002: ascontiguousarray), io.py (*.rec wrappers); tied to the working tree by the correspondence run on "
     "every check (file bytes, scanner result, eval text, the dict _make_header built, read-back rows, and for the layout entry the array's "
     "base buffer/offset/shape/strides; bounded by the generators)",
-    "regenerated from the source on every run (harness/props/c01_translate.py -> C01/Gen.v, fail closed; theorems C01_gen_*): SFILE_VERSION, "
+    "regenerated from the source on every run, TRANSLATED statement by statement with a tie lemma each (C01_gen_make_header, C01_gen_mk_header, "
+    "C01_gen_parse_header): SFile._make_header (reserved list, case-insensitive deletion loop, order of the _DTYPE/_VERSION entries), the list "
+    "of header lines joined in _write_header, the line selection lines[0] / lines[1:len-3] / ' '.join of read_header; and, as before, "
+    "(harness/props/c01_translate.py -> C01/Gen.v, fail closed; theorems C01_gen_*): SFILE_VERSION, "
     "the SIZE formats of sfile.py and Records::update_row_count, the deleted-key list, the scanner literal/length/increment, "
     "Recfile._get_slice_nrows, Recfile._count_nrows (binary branch), Records::process_slice, Records::process_nrows; the translators "
     "(python ast via harness/translate/tint.py, a mini C statement/expression translator) are trusted to print what the source says",
@@ -2038,7 +2041,9 @@ TRUSTED = [
     "UTF-8 encode/decode of the header text (identity on bytes), numpy's memory layout (element i of a view = itemsize bytes at "
     "start + sum(index_k * stride_k) of the base buffer; ascontiguousarray = the elements in C order; tobytes()), numpy.zeros + fread "
     "filling the output array; ASCII view of str.strip/upper/lower; eval of the SIZE value modelled for blank-padded decimal digits only; "
-    "user keys that the case-insensitive reader takes for _delim/_dtype in another spelling are counted among the reserved names (Spec.user_key_ok)",
+    "of the abstract theorem only: user keys spelling _dtype otherwise than _DTYPE need the evaluated dict to list _DTYPE first (true of pformat's "
+    "sorted output; decided per case on the real text by hpf_check_all); every spelling of _size/_nrows/_delim/_shape/_has_fields is stripped by "
+    "_make_header (since /repo 04e3f20) and exempt from the key clause only",
     "many-rows family (2^k, 2^k+-1 rows, k=10..17, 100003): the table, the data region of the file the real code wrote and the rows it "
     "read back enter Coq as arithmetic-progression runs produced by a generic lossless encoder (ap_encode; decoder Big.dec_runs; the "
     "encoder's losslessness is checked in Python on every use) and are compared INSIDE Coq as decoded byte lists, with readers proved equal "
